@@ -3,23 +3,34 @@
    issue_new_cid}) and the part of qbase/src/util/index_deque.rs they use (insert with gap filling,
    drain_to, advance, reset_offset).  Definitions only.
 
-   Abstraction: a connection ID is its presence bit.  An IndexDeque is (offset, list of cells).
-   A path's CidCell is the bit "still holds the connection ID it was given" (no path of the
-   harness borrows its ID, so a cell holds at most one: `assign` on a cell that holds one emits one
-   RETIRE_CONNECTION_ID for the old one).  Every handler comes in two forms that share all their
-   arithmetic:
-     * [.._cost] / [.._frames] / [.._err] : integers computed WITHOUT building the new state, so
-       that a NEW_CONNECTION_ID with sequence number 2^62-1 can be costed;
-     * [.._apply] : the new state (lists), used only when the cost is small.
-   Proofs/C04Cid.v shows the two forms agree (cells allocated by [_apply] = the gap counted by
-   [_cost], frames = the counted ones).
+   RemoteCids.  The handler itself is NOT modelled again here: it is Model.RemoteCid (the model
+   property C14 proves its invariants about), in the variant of the repaired code
+   [recv_new_cid no_pre post_count]: no test before the frame is processed, the ACTIVE connection
+   IDs are counted afterwards (`fix: enforce active_connection_id_limit on the count of active
+   peer connection IDs`).  What this file adds is the COST of one call:
+     * [rc_gap], [rc_gap_frames] : the two value-driven quantities, computed by ARITHMETIC on the
+       fields of the frame and the offsets/lengths of the state, so that a NEW_CONNECTION_ID with
+       sequence number 2^62-1 can be costed without building anything: the default cells
+       `IndexDeque::insert` appends between the old end of cid_deque and the sequence number, and
+       the RETIRE_CONNECTION_ID frames `retire_prior_to` queues for sequence NUMBERS no cell ever
+       used;
+     * [rc_new_cost] : the work units of the whole call, read off the shared model's input and
+       output states (cells appended, cells drained, ready cells popped, frames queued, pending
+       cells looked at, and the two counting passes of the limit check over ready_cells and over
+       the WHOLE cid_deque).
+   Proofs/C04Cid.v shows that the shared model allocates exactly [rc_gap] (+1) cells and queues
+   exactly [rc_gap_frames] + (frames of CidCell::assign) frames, and bounds the cost from both sides.
+
+   LocalCids.  A connection ID is its presence bit; an IndexDeque is (offset, list of cells).
+   Every handler comes in two forms that share all their arithmetic: [.._cost]/[.._frames]/[.._err]
+   (integers computed WITHOUT building the new state) and [.._apply] (the new state).
 
    Cost unit: one loop iteration or one allocated cell or one frame pushed to the send queue. *)
-From Coq Require Import List ZArith Bool.
+From Coq Require Import List ZArith NArith Bool.
+From GQ Require Import Lib.Base Model.RemoteCid.
 Import ListNotations.
-Local Open Scope Z_scope.
 
-Definition b2z (b : bool) : Z := if b then 1 else 0.
+Definition b2z (b : bool) : Z := if b then 1%Z else 0%Z.
 Definition zlen {A} (l : list A) : Z := Z.of_nat (length l).
 
 (* error kinds as printed by the harness *)
@@ -31,147 +42,108 @@ Definition E_PROTOCOL_VIOLATION : Z := 10.
 Definition E_STREAM_LIMIT : Z := 4.
 
 (* ------------------------------------------------------------------ RemoteCids *)
-Record rcids := mkrc {
-  rc_off : Z; rc_cells : list bool;      (* cid_deque: true = Some(seq, cid, token) *)
-  rc_roff : Z; rc_nready : Z;            (* ready_cells: offset and length (every ready cell holds an ID) *)
-  rc_pending : list bool;                (* pending_cells, front first: true = the cell still holds an ID *)
-  rc_limit : Z;                          (* active_cid_limit *)
-  rc_cursor : Z }.
+Local Open Scope N_scope.
 
-Definition rc_len (s : rcids) : Z := zlen (rc_cells s).
-Definition rc_size (s : rcids) : Z := rc_len s + rc_nready s + zlen (rc_pending s).
+(* new(limit); apply_dcid (the handshake path, cell 0); apply_initial_dcid(initial dcid, cell 0) *)
+Definition rc_init (limit : N) : rcids := remote_init limit 1 0 0.
 
+(* recv_new_cid_frame of the repaired code; the connection ID itself is irrelevant here: its
+   sequence number stands for it *)
+Definition rc_recv (s : rcids) (seq rpt : N) : rcids * list N * newcid_res :=
+  recv_new_cid no_pre post_count s seq rpt seq.
+
+(* apply_dcid: a path applies for a connection ID (the frames CidCell::assign may queue are not
+   observed by the harness operation) *)
+Definition rc_apply_dcid (s : rcids) : rcids := fst (fst (apply_dcid s)).
+
+(* connection IDs the paths' cells hold: Σ |allocated_cids| *)
+Fixpoint allocs (cs : list cell) : N :=
+  match cs with
+  | [] => 0
+  | c :: r => lenN (a_alloc c) + allocs r
+  end.
+
+(* the state RemoteCids holds, in cells *)
+Definition rc_size (s : rcids) : N :=
+  lenN (r_cids s) + lenN (r_ready s) + lenN (r_pending s) + allocs (r_cells s).
+
+(* -- the arithmetic of recv_new_cid_frame(seq, retire_prior_to) -- *)
+Definition rc_end (s : rcids) : N := r_coff s + lenN (r_cids s).               (* cid_deque.largest() *)
+Definition rc_discards (s : rcids) (seq : N) : bool := seq <? r_coff s.
+(* IndexDeque::insert: cells default-filled between the old end and seq (`resize(pos, default)`) *)
+Definition rc_gap (s : rcids) (seq : N) : N := seq - rc_end s.
+Definition rc_len_ins (s : rcids) (seq : N) : N := N.max (lenN (r_cids s)) (seq - r_coff s + 1).
+Definition rc_retires (s : rcids) (rpt : N) : bool := r_roff s <? rpt.
+Definition rc_applied (s : rcids) : N := r_roff s + lenN (r_ready s).          (* ready_cells.largest() *)
+(* drain_to(rpt): cells dropped from the front *)
+Definition rc_coff_after (s : rcids) (seq rpt : N) : N :=
+  if rc_retires s rpt then N.min (N.max rpt (r_coff s)) (r_coff s + rc_len_ins s seq) else r_coff s.
+Definition rc_drained (s : rcids) (seq rpt : N) : N := rc_coff_after s seq rpt - r_coff s.
+(* ready cells popped (the live ones are pushed back to pending_cells) *)
+Definition rc_popped (s : rcids) (rpt : N) : N :=
+  if rc_retires s rpt then N.min (rc_applied s) rpt - r_roff s else 0.
+(* RETIRE_CONNECTION_ID frames for sequence numbers no cell ever used: one frame per NUMBER
+   (`(ready_cells.offset()..tomb_seq)` when ready_cells is empty, `(actual_applied..tomb_seq)` otherwise:
+   the same range, since an empty ready_cells has largest() = offset()) *)
+Definition rc_gap_frames (s : rcids) (rpt : N) : N :=
+  if rc_retires s rpt then rpt - rc_applied s else 0.
+
+(* retire_prior_to alone: the test, drain_to, the pop loop, one frame per unused number *)
+Definition rc_retire_cost (s : rcids) (seq rpt : N) : N :=
+  1 + rc_drained s seq rpt + rc_popped s rpt + rc_gap_frames s rpt.
+
+(* the value-driven part: cells and frames whose number is a difference of field VALUES *)
+Definition rc_new_cells (s : rcids) (seq : N) : N := if rc_discards s seq then 0 else rc_gap s seq.
+Definition rc_new_drv (s : rcids) (seq rpt : N) : N :=
+  if rc_discards s seq then 0 else rc_gap s seq + rc_gap_frames s rpt.
+
+(* debug_assert! in drain_to: end >= offset (its other half, end <= offset+len, holds after the
+   insert because rpt <= seq); C14 proves it unreachable (the two deques stay aligned) *)
+Definition rc_new_panics (s : rcids) (seq rpt : N) : bool :=
+  negb (rc_discards s seq) && rc_retires s rpt && (rpt <? r_coff s).
+
+Definition rc_res_err (r : newcid_res) : Z :=
+  match r with NErrLimit => E_CONNECTION_ID_LIMIT | _ => E_NONE end.
+
+(* work units of one call, read off the shared model:
+     1                               the `seq < offset` test
+     gap + 1                         insert: default cells appended, the ID stored
+     1 + drained + popped            retire_prior_to: the test, drain_to, the pop loop
+     |frames|                        RETIRE_CONNECTION_ID frames queued (retire_prior_to and CidCell::assign)
+     |pending| + popped + 1          arrange_idle_cid looks at every pending cell at most once
+     |ready'| + |cid_deque'|         the limit check counts the retired ready cells and walks the whole deque *)
+Definition rc_new_cost (s : rcids) (seq rpt : N) : N :=
+  if rc_discards s seq then 1
+  else
+    let '(s', fr, _) := rc_recv s seq rpt in
+    1 + (rc_gap s seq + 1) + (1 + rc_drained s seq rpt + rc_popped s rpt) + lenN fr
+    + (lenN (r_pending s) + rc_popped s rpt + 1) + (lenN (r_ready s') + lenN (r_cids s')).
+
+Local Close Scope N_scope.
+Local Open Scope Z_scope.
+
+(* ------------------------------------------------------------------ LocalCids *)
 (* IndexDeque::get(i) is Some(Some _) *)
 Definition cells_has (off : Z) (cells : list bool) (i : Z) : bool :=
   (off <=? i) && (i <? off + zlen cells) && nth (Z.to_nat (i - off)) cells false.
 
-(* arrange_idle_cid: walk the pending cells while the deque has an ID at the cursor.
-   returns (cells assigned, RETIRE frames emitted by CidCell::assign, pending cells left) *)
-Fixpoint arrange (has : Z -> bool) (pend : list bool) (cur : Z) : Z * Z * list bool :=
-  match pend with
-  | [] => (0, 0, [])
-  | h :: rest =>
-      if has cur then let '(n, f, r) := arrange has rest (cur + 1) in (n + 1, f + b2z h, r)
-      else (0, 0, pend)
-  end.
-
-(* apply_dcid *)
-Definition rc_apply_dcid (s : rcids) : rcids :=
-  let pend := rc_pending s ++ [false] in
-  let '(n, _, r) := arrange (cells_has (rc_off s) (rc_cells s)) pend (rc_cursor s) in
-  mkrc (rc_off s) (rc_cells s) (rc_roff s) (rc_nready s + n) r (rc_limit s) (rc_cursor s + n).
-
-(* new(limit); apply_dcid; apply_initial_dcid *)
-Definition rc_init (limit : Z) : rcids := mkrc 0 [true] 0 1 [] limit 1.
-
-(* -- the arithmetic of recv_new_cid_frame(seq, retire_prior_to) -- *)
-(* IndexDeque::insert: cells default-filled between the old end and seq *)
-Definition rc_gap (s : rcids) (seq : Z) : Z := Z.max 0 (seq - (rc_off s + rc_len s)).
-Definition rc_len_ins (s : rcids) (seq : Z) : Z := Z.max (rc_len s) (seq - rc_off s + 1).
-Definition rc_retires (s : rcids) (rpt : Z) : bool := rc_roff s <? rpt.
-(* drain_to(rpt): cells dropped from the front *)
-Definition rc_drained (s : rcids) (seq rpt : Z) : Z :=
-  if rc_retires s rpt then Z.min (Z.max rpt (rc_off s)) (rc_off s + rc_len_ins s seq) - rc_off s else 0.
-Definition rc_off_after (s : rcids) (seq rpt : Z) : Z := rc_off s + rc_drained s seq rpt.
-(* ready cells popped and pushed back to pending *)
-Definition rc_popped (s : rcids) (rpt : Z) : Z :=
-  if rc_retires s rpt then
-    if rc_nready s =? 0 then 0 else Z.min (rc_roff s + rc_nready s) rpt - rc_roff s
-  else 0.
-(* RETIRE_CONNECTION_ID frames for sequence numbers no cell ever used: one frame per NUMBER *)
-Definition rc_gap_frames (s : rcids) (rpt : Z) : Z :=
-  if rc_retires s rpt then
-    if rc_nready s =? 0 then rpt - rc_roff s
-    else Z.max 0 (rpt - (rc_roff s + rc_nready s))
-  else 0.
-Definition rc_cursor_after (s : rcids) (rpt : Z) : Z :=
-  if rc_retires s rpt then Z.max (rc_cursor s) rpt else rc_cursor s.
-Definition rc_pending_after (s : rcids) (rpt : Z) : list bool :=
-  rc_pending s ++ repeat true (Z.to_nat (rc_popped s rpt)).
-(* is there an ID at index i after insert(seq) and drain_to(rpt)? *)
-Definition rc_has_after (s : rcids) (seq rpt : Z) (i : Z) : bool :=
-  (rc_off_after s seq rpt <=? i) && ((i =? seq) || cells_has (rc_off s) (rc_cells s) i).
-
-Definition rc_over_limit (s : rcids) (seq rpt : Z) : bool := rc_limit s <? Z.max 0 (seq - rpt).
-
-(* debug_assert! in drain_to: end >= offset (its other half, end <= offset+len, holds because rpt <= seq) *)
-Definition rc_new_panics (s : rcids) (seq rpt : Z) : bool :=
-  negb (rc_over_limit s seq rpt) && negb (seq <? rc_off s) && rc_retires s rpt && (rpt <? rc_off s).
-
-Definition rc_new_err (s : rcids) (seq rpt : Z) : Z :=
-  if rc_over_limit s seq rpt then E_CONNECTION_ID_LIMIT else E_NONE.
-
-Definition rc_new_frames (s : rcids) (seq rpt : Z) : Z :=
-  if rc_over_limit s seq rpt then 0
-  else if seq <? rc_off s then 0
-  else
-    let '(_, f, _) := arrange (rc_has_after s seq rpt) (rc_pending_after s rpt) (rc_cursor_after s rpt) in
-    rc_gap_frames s rpt + f.
-
-(* retire_prior_to alone *)
-Definition rc_retire_cost (s : rcids) (seq rpt : Z) : Z :=
-  1 + rc_drained s seq rpt + rc_popped s rpt + rc_gap_frames s rpt.
-
-Definition rc_new_cost (s : rcids) (seq rpt : Z) : Z :=
-  if rc_over_limit s seq rpt then 1
-  else if seq <? rc_off s then 1
-  else
-    let '(n, _, _) := arrange (rc_has_after s seq rpt) (rc_pending_after s rpt) (rc_cursor_after s rpt) in
-    1 + (rc_gap s seq + 1) + rc_retire_cost s seq rpt + (n + 1).
-
-(* cells the deque allocates while handling the frame *)
-Definition rc_new_cells (s : rcids) (seq rpt : Z) : Z :=
-  if rc_over_limit s seq rpt then 0 else if seq <? rc_off s then 0 else rc_gap s seq.
-
-(* -- the same handler as a state transformer -- *)
-Fixpoint set_nth_b (n : nat) (l : list bool) : list bool :=
-  match l, n with
-  | [], _ => []
-  | _ :: r, O => true :: r
-  | y :: r, S k => y :: set_nth_b k r
-  end.
-
-Definition cells_insert (off : Z) (cells : list bool) (seq : Z) : list bool :=
-  let pos := seq - off in
-  if pos <? zlen cells then set_nth_b (Z.to_nat pos) cells
-  else cells ++ repeat false (Z.to_nat (pos - zlen cells)) ++ [true].
-
-Definition rc_new_apply (s : rcids) (seq rpt : Z) : rcids :=
-  if rc_over_limit s seq rpt then s
-  else if seq <? rc_off s then s
-  else
-    let cells1 := cells_insert (rc_off s) (rc_cells s) seq in
-    let d := rc_drained s seq rpt in
-    let cells2 := skipn (Z.to_nat d) cells1 in
-    let off2 := rc_off s + d in
-    let popped := rc_popped s rpt in
-    let roff2 := if rc_retires s rpt then
-                   (if rc_nready s =? 0 then rpt
-                    else if rc_roff s + rc_nready s <? rpt then rpt else rc_roff s + popped)
-                 else rc_roff s in
-    let nready2 := if rc_retires s rpt then rc_nready s - popped else rc_nready s in
-    let cur2 := rc_cursor_after s rpt in
-    let '(n, _, r) := arrange (cells_has off2 cells2) (rc_pending_after s rpt) cur2 in
-    mkrc off2 cells2 roff2 (nready2 + n) r (rc_limit s) (cur2 + n).
-
-(* ------------------------------------------------------------------ LocalCids *)
-Record lcids := mklc { lc_off : Z; lc_cells : list bool; lc_limit : option Z }.
-Definition lc_init : lcids := mklc 0 [true; true] None.
-Definition lc_len (s : lcids) : Z := zlen (lc_cells s).
-Definition lc_next (s : lcids) : Z := lc_off s + lc_len s.      (* IndexDeque::largest *)
+Record lcst := mklc { lc_off : Z; lc_cells : list bool; lc_limit : option Z }.
+Definition lc_init : lcst := mklc 0 [true; true] None.
+Definition lc_len (s : lcst) : Z := zlen (lc_cells s).
+Definition lc_next (s : lcst) : Z := lc_off s + lc_len s.      (* IndexDeque::largest *)
 
 (* set_limit(n): issues one connection ID (one NEW_CONNECTION_ID frame, one deque cell) per number
    between the next sequence number and n *)
-Definition lc_set_err (s : lcids) (n : Z) : Z := if n <? 2 then E_TRANSPORT_PARAMETER else E_NONE.
-Definition lc_set_frames (s : lcids) (n : Z) : Z := if n <? 2 then 0 else Z.max 0 (n - lc_next s).
-Definition lc_set_cost (s : lcids) (n : Z) : Z := 1 + lc_set_frames s n.
-Definition lc_set_apply (s : lcids) (n : Z) : lcids :=
+Definition lc_set_err (s : lcst) (n : Z) : Z := if n <? 2 then E_TRANSPORT_PARAMETER else E_NONE.
+Definition lc_set_frames (s : lcst) (n : Z) : Z := if n <? 2 then 0 else Z.max 0 (n - lc_next s).
+Definition lc_set_cost (s : lcst) (n : Z) : Z := 1 + lc_set_frames s n.
+Definition lc_set_apply (s : lcst) (n : Z) : lcst :=
   if n <? 2 then s
   else mklc (lc_off s) (lc_cells s ++ repeat true (Z.to_nat (lc_set_frames s n))) (Some n).
 
 (* recv_retire_cid_frame(seq) *)
-Fixpoint leading_none (l : list bool) : nat :=
-  match l with false :: r => S (leading_none r) | _ => O end.
+Fixpoint lead_none (l : list bool) : nat :=
+  match l with false :: r => S (lead_none r) | _ => O end.
 Fixpoint clear_nth (n : nat) (l : list bool) : list bool :=
   match l, n with
   | [], _ => []
@@ -179,17 +151,18 @@ Fixpoint clear_nth (n : nat) (l : list bool) : list bool :=
   | y :: r, S k => y :: clear_nth k r
   end.
 
-(* [strict_kind] = true is RFC 9000 19.16 (PROTOCOL_VIOLATION); false is the code (CONNECTION_ID_LIMIT_ERROR) *)
-Definition lc_retire_err (rfc_kind : bool) (s : lcids) (seq : Z) : Z :=
+(* [rfc_kind] = true is RFC 9000 19.16 (PROTOCOL_VIOLATION): the code since `fix: RETIRE_CONNECTION_ID for a
+   sequence number never issued is a PROTOCOL_VIOLATION`; false is the code before it (CONNECTION_ID_LIMIT_ERROR, F55) *)
+Definition lc_retire_err (rfc_kind : bool) (s : lcst) (seq : Z) : Z :=
   if lc_next s <=? seq then (if rfc_kind then E_PROTOCOL_VIOLATION else E_CONNECTION_ID_LIMIT) else E_NONE.
-Definition lc_retire_hits (s : lcids) (seq : Z) : bool :=
+Definition lc_retire_hits (s : lcst) (seq : Z) : bool :=
   (seq <? lc_next s) && cells_has (lc_off s) (lc_cells s) seq.
-Definition lc_retire_frames (s : lcids) (seq : Z) : Z := if lc_retire_hits s seq then 1 else 0.
-Definition lc_retire_advance (s : lcids) (seq : Z) : nat :=
-  leading_none (clear_nth (Z.to_nat (seq - lc_off s)) (lc_cells s)).
-Definition lc_retire_cost (s : lcids) (seq : Z) : Z :=
+Definition lc_retire_frames (s : lcst) (seq : Z) : Z := if lc_retire_hits s seq then 1 else 0.
+Definition lc_retire_advance (s : lcst) (seq : Z) : nat :=
+  lead_none (clear_nth (Z.to_nat (seq - lc_off s)) (lc_cells s)).
+Definition lc_retire_cost (s : lcst) (seq : Z) : Z :=
   if lc_retire_hits s seq then 2 + Z.of_nat (lc_retire_advance s seq) else 1.
-Definition lc_retire_apply (s : lcids) (seq : Z) : lcids :=
+Definition lc_retire_apply (s : lcst) (seq : Z) : lcst :=
   if lc_retire_hits s seq then
     let n := lc_retire_advance s seq in
     mklc (lc_off s + Z.of_nat n)
